@@ -28,9 +28,10 @@ import (
 type c13Case struct {
 	Policy spec.Policy   `json:"policy"`
 	Others []spec.Policy `json:"others"`
-	K      int           `json:"k"`          // compilations of the same value
-	G      int           `json:"goroutines"` // concurrent kind only
-	Shared bool          `json:"shared"`     // concurrent kind: shallow copies sharing slices
+	K      int           `json:"k"`                // compilations of the same value
+	G      int           `json:"goroutines"`       // concurrent kind only
+	Shared bool          `json:"shared"`           // concurrent kind: shallow copies sharing slices
+	Mutate string        `json:"mutate,omitempty"` // history kind: modify the value in place after the first compilations (default / group-action / drop-group)
 }
 
 type hdr struct {
@@ -163,6 +164,9 @@ func drawC13(t *rapid.T) c13Case {
 	for i := 0; i < n; i++ {
 		c.Others = append(c.Others, gen.Policy(t, drawArch(t), gen.Opts{Profile: gen.Small}))
 	}
+	if rapid.IntRange(0, 3).Draw(t, "mutate") == 0 {
+		c.Mutate = []string{"default", "group-action", "drop-group"}[rapid.IntRange(0, 2).Draw(t, "mutateKind")]
+	}
 	// sometimes an invalid policy in between (error paths must not leave state behind either)
 	if rapid.IntRange(0, 4).Draw(t, "invalidOther") == 0 {
 		c.Others = append(c.Others, spec.Policy{Arch: archName, Default: 0x7fff0000, Groups: []spec.Group{{Action: 0, Names: []string{"read", "read", "nope"}}}})
@@ -204,6 +208,47 @@ func checkC13History(raw json.RawMessage) (ev.Result, error) {
 		if ferr == nil && !reflect.DeepEqual(first, firstCopy) {
 			return ev.Result{}, fmt.Errorf("the program returned by the first call was modified by a later call")
 		}
+	}
+	// modify the caller's value in place (other default action, other action of a group, one name more or
+	// fewer): the next compilation must be the one of the modified policy, i.e. equal to that of a fresh equal value
+	if c.Mutate != "" {
+		mod := c.Policy
+		mod.Groups = append([]spec.Group(nil), c.Policy.Groups...)
+		acts := []uint32{0x7fff0000, 0x00050000, 0x80000000, 0x7ffc0000, 0x00030000}
+		other := func(a uint32) uint32 {
+			for _, x := range acts {
+				if x != a {
+					return x
+				}
+			}
+			return a
+		}
+		switch c.Mutate {
+		case "default":
+			mod.Default = other(mod.Default)
+			sp.DefaultAction = seccomp.Action(mod.Default)
+		case "group-action":
+			if len(mod.Groups) > 0 {
+				gi := len(mod.Groups) - 1
+				mod.Groups[gi].Action = other(mod.Groups[gi].Action)
+				sp.Syscalls[gi].Action = seccomp.Action(mod.Groups[gi].Action)
+			}
+		case "drop-group":
+			if len(mod.Groups) > 1 {
+				mod.Groups = mod.Groups[:len(mod.Groups)-1]
+				sp.Syscalls = sp.Syscalls[:len(sp.Syscalls)-1]
+			}
+		}
+		got, gerr, pan := assembleAny(sp)
+		if pan != nil {
+			return ev.Result{}, fmt.Errorf("Assemble panicked after the policy was modified: %v", pan)
+		}
+		want, werr, _ := assembleAny(mod.ToSeccomp())
+		if err := sameOutcome(want, werr, got, gerr); err != nil {
+			return ev.Result{}, fmt.Errorf("after modifying the policy value in place (%s) Assemble does not return the program of the modified policy (a fresh equal value compiles differently): %v", c.Mutate, err)
+		}
+		res := ev.Result{Classes: []string{"history", "modified-between-compilations:" + c.Mutate}, NonTrivial: true}
+		return res, nil
 	}
 	// an equal but distinct value
 	fresh, frerr, _ := assembleAny(c.Policy.ToSeccomp())
@@ -481,4 +526,31 @@ func TestC13Processes(t *testing.T) {
 			return
 		}
 	}
+}
+
+// TestC13TextProcesses: the text forms (and every lookup-independent digest) from many fresh processes. An order that is
+// frozen per process (e.g. taken from a map at initialisation) shows only as a difference between processes.
+func TestC13TextProcesses(t *testing.T) {
+	ev.Register("C13", "text-processes", checkC13TextProcesses)
+	ev.CheckOne(t, "C13", "text-processes", c13ProcCase{Processes: ev.Scale(64, 400)}, checkC13TextProcesses)
+}
+
+func checkC13TextProcesses(raw json.RawMessage) (ev.Result, error) {
+	var c c13ProcCase
+	if err := json.Unmarshal(raw, &c); err != nil {
+		return ev.Result{}, ev.Inconclusivef("bad case: %v", err)
+	}
+	first := ""
+	for i := 0; i < c.Processes; i++ {
+		m, err := runDigest("")
+		if err != nil {
+			return ev.Result{}, ev.Inconclusivef("%v", err)
+		}
+		if i == 0 {
+			first = m["texts"]
+		} else if m["texts"] != first {
+			return ev.Result{}, fmt.Errorf("process %d of %d prints a different text form for some action or filter-flag value than process 1 (digest over FilterFlag 0..63 and all actions)", i+1, c.Processes)
+		}
+	}
+	return ev.Result{Classes: []string{"text-forms-across-processes"}, NonTrivial: true, Sub: c.Processes}, nil
 }
